@@ -18,6 +18,7 @@ package main
 // real code must report no change.
 
 import (
+	"bufio"
 	"encoding/json"
 	"fmt"
 	"os"
@@ -25,6 +26,7 @@ import (
 	"sort"
 	"strconv"
 	"strings"
+	"time"
 	. "verifharness/vhlib"
 
 	"github.com/hknutzen/Netspoc-Approve/go/pkg/drc"
@@ -32,7 +34,124 @@ import (
 	"github.com/hknutzen/Netspoc-Approve/go/pkg/linux"
 )
 
-func main() { Main(map[string]PropFunc{"C05": runC05}) }
+func main() {
+	// the harness binary doubles as the simulated Linux host (SIMULATE_ROUTER=<this binary> -sim STATE)
+	if len(os.Args) >= 3 && os.Args[1] == "-sim" {
+		runSim(os.Args[2])
+		return
+	}
+	Main(map[string]PropFunc{"C05": runC05})
+}
+
+// ---------------------------------------------------------------- simulated Linux host (device path)
+
+type simState struct {
+	Routes string `json:"routes"`  // output of `ip route show`
+	Ipt    string `json:"ipt"`     // output of `iptables-save`
+	FailAt int    `json:"fail_at"` // the session dies when the `ip route add|del` command with this index arrives (-1: never)
+	Log    string `json:"log"`     // accepted `ip route` commands, one per line
+}
+
+// runSim speaks the dialogue pkg/linux expects over stdin/stdout (no pty: the host echoes itself).
+func runSim(stateFile string) {
+	var st simState
+	data, _ := os.ReadFile(stateFile)
+	json.Unmarshal(data, &st)
+	in := bufio.NewReader(os.Stdin)
+	out := bufio.NewWriter(os.Stdout)
+	out.WriteString("Linux router 5.10.0\r\nroot@router:~# ")
+	out.Flush()
+	nroute := 0
+	// pkg/linux never closes the session (CloseConnection is empty; drc normally just exits), and the
+	// harness runs drc in-process: leave by ourselves when the dialogue is over, or the pty leaks
+	idle := time.AfterFunc(20*time.Second, func() { os.Exit(0) })
+	for {
+		line, err := in.ReadString('\n')
+		if err != nil {
+			return
+		}
+		idle.Reset(4 * time.Second)
+		line = strings.TrimRight(line, "\r\n")
+		if line == "exit" {
+			return
+		}
+		resp := ""
+		switch {
+		case line == "uname -r":
+			resp = "5.10.0-verif\n"
+		case line == "uname -m":
+			resp = "x86_64\n"
+		case line == "hostname -s":
+			resp = "router\n"
+		case strings.HasPrefix(line, "grep ") && strings.HasSuffix(line, "/etc/issue"):
+			resp = "--- managed by NetSPoC ---\n"
+		case line == "which iptables-restore":
+			resp = "/sbin/iptables-restore\n"
+		case line == "iptables-save":
+			resp = st.Ipt
+		case line == "ip route show":
+			resp = st.Routes
+		case line == "echo $?":
+			resp = "0\n"
+		case strings.HasPrefix(line, "ip route add ") || strings.HasPrefix(line, "ip route del "):
+			if nroute == st.FailAt {
+				// the session is interrupted here: this command and everything behind it (also the second
+				// half of a packet) is not executed
+				return
+			} else if st.Log != "" {
+				f, _ := os.OpenFile(st.Log, os.O_APPEND|os.O_CREATE|os.O_WRONLY, 0644)
+				f.WriteString(line + "\n")
+				f.Close()
+			}
+			nroute++
+		}
+		out.WriteString(line + "\r\n" + strings.ReplaceAll(resp, "\n", "\r\n") + "router#")
+		out.Flush()
+	}
+}
+
+// deviceRun runs the real `drc [-C] -q -L LOGDIR CODE/router` against the simulated host.
+// Returns the run, the compare log (ShowChanges) if written, and the `ip route` commands the host accepted.
+func (r *runner) deviceRun(compare bool, routesOut, iptOut, spoc string, failAt int) (implOut, string, []string) {
+	r.n++
+	d := filepath.Join(r.dir, fmt.Sprintf("d%d", r.n))
+	os.MkdirAll(filepath.Join(d, "code"), 0755)
+	defer os.RemoveAll(d)
+	for _, sub := range []string{"lock", "status", "history", "log"} {
+		os.MkdirAll(filepath.Join(d, sub), 0755)
+	}
+	os.WriteFile(filepath.Join(d, ".netspoc-approve"), []byte("basedir = "+d+"\ncheckbanner = NetSPoC\nsystemuser = admin\ntimeout = 5\n"), 0644)
+	os.WriteFile(filepath.Join(d, "credentials"), []byte("* admin secret\n"), 0644)
+	code := filepath.Join(d, "code", "router")
+	os.WriteFile(code, []byte(spoc), 0644)
+	os.WriteFile(code+".info", []byte(`{"generated_by":"verif","model":"Linux","name_list":["router"],"ip_list":["10.1.13.33"]}`), 0644)
+	logF := filepath.Join(d, "cmds")
+	stF := filepath.Join(d, "state.json")
+	os.WriteFile(stF, []byte(JSONStr(simState{Routes: routesOut, Ipt: iptOut, FailAt: failAt, Log: logF})), 0644)
+	exe, _ := os.Executable()
+	oldHome := os.Getenv("HOME")
+	os.Setenv("HOME", d)
+	os.Setenv("SIMULATE_ROUTER", exe+" -sim "+stF)
+	defer func() { os.Setenv("HOME", oldHome); os.Unsetenv("SIMULATE_ROUTER") }()
+	old := os.Args
+	os.Args = []string{"drc", "-q", "-L", filepath.Join(d, "log")}
+	if compare {
+		os.Args = append(os.Args, "-C")
+	}
+	os.Args = append(os.Args, code)
+	defer func() { os.Args = old }()
+	so, se, st, pm := Captured(drc.Main)
+	cmp, _ := os.ReadFile(filepath.Join(d, "log", "router.cmp"))
+	var cmds []string
+	if data, err := os.ReadFile(logF); err == nil {
+		cmds = strings.Split(strings.TrimSuffix(string(data), "\n"), "\n")
+		if len(data) == 0 {
+			cmds = nil
+		}
+	}
+	se = strings.ReplaceAll(se, d+"/", "")
+	return implOut{so, se, st, pm}, string(cmp), cmds
+}
 
 const (
 	fs = "\x1e"
@@ -70,6 +189,9 @@ type c05Case struct {
 	DevRS     []aTable   `json:"dev_rs,omitempty"`
 	TgtRoutes []string   `json:"tgt_routes,omitempty"` // target route lines as written
 	TgtRS     []aTable   `json:"tgt_rs,omitempty"`
+	// device path cases
+	OddLine string `json:"odd_line,omitempty"` // an extra line in the device's iptables-save output
+	FailAt  int    `json:"fail_at,omitempty"`  // device-resume: the session dies when this `ip route` command arrives
 }
 
 func encRS(rs []aTable) string {
@@ -253,7 +375,7 @@ func userRouteLine(rng *RNG, ip string, plen int, hop string) string {
 var soupWords = []string{"ip", "route", "add", "del", "via", "dev", "default", "proto", "kernel", "static", "scope", "link", "vrf", "x",
 	"10.1.1.0/24", "10.1.1.1", "10.1.1.0/", "10.1.1.0/x", "10.1.1.0/+8", "10.1.1.0/-1", "10.1.1.0/99999999999999999999", "proto 12", "eth0"}
 
-var soupIpt = []string{"*filter", "*nat", "*", "* x y", ":INPUT DROP", ":INPUT", ":c1 -", ":c1 - [0:0]", ": c1 -", "COMMIT", "[APPEND]", "foo", "-A", "-A c1", "-I c1 -j ACCEPT",
+var soupIpt = []string{"*filter", "*filter", ":INPUT ACCEPT", "*nat", "*", "* x y", ":INPUT DROP", ":INPUT", ":c1 -", ":c1 - [0:0]", ": c1 -", "COMMIT", "[APPEND]", "foo", "-A", "-A c1", "-I c1 -j ACCEPT",
 	"-A c1 -j ACCEPT", "-A c2 -j ACCEPT", "-A INPUT -j ACCEPT !", "-A INPUT ! -j ACCEPT", "-A INPUT -p ! tcp", "-A INPUT ! ! -p tcp", "-A INPUT -p tcp ! ! --syn",
 	"-A INPUT ! -p ! TCP -j c1", "-A INPUT x y z", "-A INPUT -m -p", "-A INPUT -m tcp -p TCP -m TCP", "-A INPUT -m state -m tcp -p tcp --state NEW,ESTABLISHED",
 	"-A INPUT -j MARK --set-xmark 0x1/0xff", "-A INPUT -j MARK --set-xmark 0x1/0xFFFFFFFF --set-mark 7", "-A INPUT --dport 0", "-A INPUT --dport 00:65535", "-A INPUT --sport ! 0:1023",
@@ -765,6 +887,39 @@ func runC05(ctx *Ctx) *Result {
 	drv := ctx.StartNadrv("c05")
 	defer drv.Close()
 
+	// judge: the direct oracle on a script printed by the real code (file mode or device mode); `rerun`
+	// runs the real compare again on the device text the specification computes for afterwards
+	judge := func(c *c05Case, why, script string, rerun func(dev2 string) (string, int, string)) {
+		o := strings.Split(drv.Ask(strings.Join([]string{"oracle", b2s(c.Names), encRoutes(c.DevRoutes), encRS(c.DevRS),
+			strings.Join(c.TgtRoutes, ls), encRS(c.TgtRS), toLine(strings.TrimSuffix(script, "\n"))}, fs)), fs)
+		if len(o) != 6 {
+			res.Disagree("c05 oracle (driver cannot read the case)", c, script, strings.Join(o, "|"))
+			return
+		}
+		res.Count("oracle:" + o[0])
+		failed := false
+		for _, pred := range []string{o[4], o[5]} {
+			if pred != "" {
+				failed = true
+				if pred == "iptables_change_reported_for_equivalent_device" {
+					pred = spellingClass(pred, why, script)
+				}
+				res.Fail(map[string]any{"pred": pred}, "executing the script printed by the real code on the device semantics: "+pred+" "+o[2], c)
+			}
+		}
+		if failed {
+			return
+		}
+		// ---- the device afterwards, as it prints itself: the second compare must be empty
+		out2, st2, err2 := rerun(fromLine(o[3]) + "\n")
+		res.Count("second-compare")
+		if st2 != 0 || out2 != "" {
+			pred := spellingClass("second_compare_reports_change", why, out2)
+			first, _, _ := strings.Cut(out2+err2, "\n")
+			res.Fail(map[string]any{"pred": pred}, "after a successful approve the device (kernel spelling) still differs from the target: "+first, c)
+		}
+	}
+
 	// one case: tie, then (abstract cases) the oracle
 	runCase := func(c *c05Case) {
 		res.Count("stream:" + c.Stream)
@@ -839,45 +994,186 @@ func runC05(ctx *Ctx) *Result {
 		if !c.Abstract || impl.Status != 0 {
 			return
 		}
-		// ---- direct oracle
-		o := strings.Split(drv.Ask(strings.Join([]string{"oracle", b2s(c.Names), encRoutes(c.DevRoutes), encRS(c.DevRS),
-			strings.Join(c.TgtRoutes, ls), encRS(c.TgtRS), toLine(strings.TrimSuffix(impl.Stdout, "\n"))}, fs)), fs)
-		if len(o) != 6 {
-			res.Disagree("c05 oracle (driver cannot read the case)", c, impl.Stdout, strings.Join(o, "|"))
-			return
-		}
-		res.Count("oracle:" + o[0])
-		failed := false
-		for _, pred := range []string{o[4], o[5]} {
-			if pred != "" {
-				failed = true
-				if pred == "iptables_change_reported_for_equivalent_device" {
-					pred = spellingClass(pred, why, impl.Stdout)
-				}
-				res.Fail(map[string]any{"pred": pred}, "executing the script printed by the real code on the device semantics: "+pred+" "+o[2], c)
-			}
-		}
-		if failed {
-			return
-		}
-		// ---- the device afterwards, as it prints itself: the second compare must be empty
-		dev2 := fromLine(o[3]) + "\n"
-		impl2 := run.drc(dev2, c.Spoc)
-		res.Count("second-compare")
-		if impl2.Status != 0 || impl2.Stdout != "" {
-			pred := spellingClass("second_compare_reports_change", why, impl2.Stdout)
-			first, _, _ := strings.Cut(impl2.Stdout+impl2.Stderr, "\n")
-			res.Fail(map[string]any{"pred": pred}, "after a successful approve the device (kernel spelling) still differs from the target: "+first, c)
-		}
+		judge(c, why, impl.Stdout, func(dev2 string) (string, int, string) {
+			impl2 := run.drc(dev2, c.Spoc)
+			return impl2.Stdout, impl2.Status, impl2.Stderr
+		})
 	}
 
+	// ---- the device path: the real LoadDevice / GetChanges / ApplyCommands against a simulated host
+	flatten := func(lines []string) []string {
+		var out []string
+		for _, l := range lines {
+			out = append(out, strings.Split(l, "\\N ")...)
+		}
+		return out
+	}
+	sameList := func(a, b []string) bool {
+		if len(a) != len(b) {
+			return false
+		}
+		for i := range a {
+			if a[i] != b[i] {
+				return false
+			}
+		}
+		return true
+	}
+	devTexts := func(c *c05Case) (routesOut, iptOut, spoc, why string, ok bool) {
+		ans := strings.Split(drv.Ask(strings.Join([]string{"mk", b2s(c.Names), encRoutes(c.DevRoutes), encRS(c.DevRS), encRS(c.TgtRS)}, fs)), fs)
+		if ans[0] != "OK" || len(ans) != 5 {
+			res.Disagree("c05 mk (driver cannot read the abstract case)", c, "", strings.Join(ans, "|"))
+			return "", "", "", "", false
+		}
+		why = ans[4]
+		var rl, il []string
+		for _, l := range splitLines(ans[1]) {
+			if strings.HasPrefix(l, "ip route add ") {
+				rl = append(rl, strings.TrimPrefix(l, "ip route add "))
+			} else {
+				il = append(il, l)
+			}
+		}
+		for i, nline := range c.Noise {
+			pos := (i * 7) % (len(rl) + 1)
+			rl = append(rl[:pos], append([]string{nline}, rl[pos:]...)...)
+		}
+		if len(rl) > 0 {
+			routesOut = strings.Join(rl, "\n") + "\n"
+		}
+		if len(il) > 0 {
+			iptOut = strings.Join(il, "\n") + "\n"
+		}
+		spoc = strings.Join(append(append([]string{}, c.TgtRoutes...), splitLines(ans[2])...), "\n") + "\n"
+		return routesOut, iptOut, spoc, why, true
+	}
+	runDeviceCompare := func(c *c05Case) {
+		routesOut, iptOut, spoc, why, ok := devTexts(c)
+		if !ok {
+			return
+		}
+		odd := c.OddLine != ""
+		if odd {
+			iptOut += c.OddLine + "\n"
+		}
+		c.Dev, c.Spoc = "ROUTES\n"+routesOut+"IPTABLES\n"+iptOut, spoc
+		impl, cmpLog, _ := run.deviceRun(true, routesOut, iptOut, spoc, -1)
+		ans := drv.Ask("dev" + fs + toLine(iptOut) + fs + toLine(routesOut) + fs + toLine(spoc))
+		res.Count("stream:device-compare")
+		res.TracesVsImpl++
+		res.Eval("dev\x00"+c.Dev+"\x00"+spoc, cmpLog != "" || impl.Status != 0)
+		switch {
+		case impl.Status != 0:
+			res.Count("device:abort")
+		case cmpLog == "":
+			res.Count("device:unchanged")
+		default:
+			res.Count("device:changed")
+		}
+		// oracle (specification side only): what the device prints according to the specification
+		// (`iptables-save` with its comment lines and counters, `ip route show`) must be readable
+		if !odd && (impl.Status != 0 || impl.Panic != "") {
+			first, _, _ := strings.Cut(impl.Stderr+impl.Panic, "\n")
+			res.Fail(map[string]any{"pred": "device_output_rejected"},
+				"LoadDevice aborts on output a Linux host prints (iptables-save / ip route show): "+first, c)
+		}
+		if d := agree(implOut{Stdout: cmpLog, Stderr: impl.Stderr, Status: impl.Status, Panic: impl.Panic}, ans, false); d != "" {
+			res.Disagree("c05 device path (drc -C against the simulated host) vs model: "+d, c,
+				fmt.Sprintf("status=%d cmp=%q stderr=%q panic=%q", impl.Status, cmpLog, impl.Stderr, impl.Panic), ans)
+		}
+		if !odd && impl.Status == 0 {
+			judge(c, why, cmpLog, func(dev2 string) (string, int, string) {
+				var rl, il []string
+				for _, l := range strings.Split(strings.TrimSuffix(dev2, "\n"), "\n") {
+					if strings.HasPrefix(l, "ip route add ") {
+						rl = append(rl, strings.TrimPrefix(l, "ip route add "))
+					} else if l != "" {
+						il = append(il, l)
+					}
+				}
+				r2, i2 := "", ""
+				if len(rl) > 0 {
+					r2 = strings.Join(rl, "\n") + "\n"
+				}
+				if len(il) > 0 {
+					i2 = strings.Join(il, "\n") + "\n"
+				}
+				impl2, cmp2, _ := run.deviceRun(true, r2, i2, spoc, -1)
+				return cmp2, impl2.Status, impl2.Stderr
+			})
+		}
+	}
+	runDeviceResume := func(c *c05Case) {
+		routesOut, _, spoc, _, ok := devTexts(c)
+		if !ok {
+			return
+		}
+		c.Dev, c.Spoc = routesOut, spoc
+		res.Count("stream:device-resume")
+		model := strings.Split(drv.Ask("dev"+fs+""+fs+toLine(routesOut)+fs+toLine(spoc)), fs)
+		if model[0] != "OK" {
+			res.Disagree("c05 device-resume: model rejects a generated case", c, "", strings.Join(model, "|"))
+			return
+		}
+		full := flatten(splitLines(model[1]))
+		k := c.FailAt
+		impl1, _, cmds1 := run.deviceRun(false, routesOut, "", spoc, k)
+		res.TracesVsImpl++
+		res.Eval(fmt.Sprintf("resume\x00%d\x00%s\x00%s", k, routesOut, spoc), len(full) > 0)
+		want1 := full
+		if k < len(full) {
+			want1 = full[:k]
+			res.Count("resume:interrupted")
+		} else {
+			res.Count("resume:complete")
+		}
+		if !sameList(cmds1, want1) || (k < len(full)) != (impl1.Status != 0) || impl1.Panic != "" {
+			res.Disagree("c05 device path (approve, commands accepted by the simulated host) vs model", c,
+				fmt.Sprintf("status=%d cmds=%q stderr=%q", impl1.Status, cmds1, impl1.Stderr), strings.Join(want1, "|"))
+			return
+		}
+		tgt := strings.Join(c.TgtRoutes, ls)
+		o1 := strings.Split(drv.Ask(strings.Join([]string{"rexec", encRoutes(c.DevRoutes), strings.Join(cmds1, ls), tgt}, fs)), fs)
+		if o1[0] != "ok" || len(o1) != 4 {
+			res.Fail(map[string]any{"pred": "resume_prefix_command_fails"}, "a prefix of the route script fails on the strict kernel table", c)
+			return
+		}
+		routes2 := ""
+		if o1[1] != "" {
+			routes2 = fromLine(o1[1]) + "\n"
+		}
+		impl2, _, cmds2 := run.deviceRun(false, routes2, "", spoc, -1)
+		model2 := strings.Split(drv.Ask("dev"+fs+""+fs+toLine(routes2)+fs+toLine(spoc)), fs)
+		res.TracesVsImpl++
+		if model2[0] != "OK" || impl2.Status != 0 || !sameList(cmds2, flatten(splitLines(model2[1]))) {
+			res.Disagree("c05 device path (second approve after an interrupted one) vs model", c,
+				fmt.Sprintf("status=%d cmds=%q stderr=%q", impl2.Status, cmds2, impl2.Stderr), strings.Join(model2, "|"))
+			return
+		}
+		o2 := strings.Split(drv.Ask(strings.Join([]string{"rexec", o1[3], strings.Join(cmds2, ls), tgt}, fs)), fs)
+		switch {
+		case o2[0] != "ok":
+			res.Fail(map[string]any{"pred": "resume_command_fails"}, fmt.Sprintf("after an approve interrupted behind %d commands the second approve sends a command the kernel rejects", k), c)
+		case o2[2] != "1":
+			res.Fail(map[string]any{"pred": "resume_not_converged"}, fmt.Sprintf("after an approve interrupted behind %d commands the second approve does not end in the target's routes", k), c)
+		default:
+			res.Count("resume:converged")
+		}
+	}
 	if ctx.Replay != "" {
 		var c c05Case
 		if err := ReadReplay(ctx.Replay, &c); err != nil {
 			fmt.Fprintln(os.Stderr, err)
 			os.Exit(2)
 		}
-		runCase(&c)
+		switch c.Stream {
+		case "device-compare":
+			runDeviceCompare(&c)
+		case "device-resume":
+			runDeviceResume(&c)
+		default:
+			runCase(&c)
+		}
 		// a replay answers "does THIS input still violate the property beyond the listed classes":
 		// failures of a class listed as known in known/C05.jsonl are noted, not reported
 		known := map[string]bool{}
@@ -919,7 +1215,7 @@ func runC05(ctx *Ctx) *Result {
 	}
 
 	// ---- seeded random
-	n := ctx.N(1500, 30000)
+	n := ctx.N(700, 30000)
 	for i := 0; i < n; i++ {
 		rng := base.Fork()
 		c := &c05Case{Abstract: true, Names: rng.Bool()}
@@ -943,7 +1239,7 @@ func runC05(ctx *Ctx) *Result {
 		runCase(c)
 	}
 	// MARK rules whose device counterpart differs only in the mask (or not at all)
-	for i := 0; i < ctx.N(80, 2000); i++ {
+	for i := 0; i < ctx.N(50, 2000); i++ {
 		rng := base.Fork()
 		c := &c05Case{Abstract: true, Names: rng.Bool(), Stream: "mark-mask"}
 		rules := [][]string{}
@@ -983,13 +1279,13 @@ func runC05(ctx *Ctx) *Result {
 			c.DevRS = mutateRS(rng, c.TgtRS, res, false)
 		case 3:
 			c.TgtRS = genRS(rng, ruleOpts{})
-			c.DevRS = mutateRS(rng, c.TgtRS, res, true)
+			c.DevRS = mutateRS(rng, c.TgtRS, res, false)
 			c.DevRS = append(c.DevRS, aTable{Name: "raw", Chains: []aChain{{Name: "PREROUTING", Policy: "ACCEPT"}}})
 		}
 		runCase(c)
 	}
 	// text soup: malformed and odd input, tie only
-	for i := 0; i < ctx.N(1000, 20000); i++ {
+	for i := 0; i < ctx.N(400, 20000); i++ {
 		rng := base.Fork()
 		runCase(&c05Case{Stream: "soup", Dev: genSoup(rng), Spoc: genSoup(rng)})
 	}
@@ -1123,8 +1419,29 @@ func runC05(ctx *Ctx) *Result {
 		}
 		res.Notes = append(res.Notes, "exhaustive: 16 device route sets x 41 target sequences over 4 keys; every hint combination of single-rule spellings per option kind, both protocol printing styles")
 	}
+	tDev := time.Now()
+	for i := 0; i < ctx.N(25, 500); i++ {
+		rng := base.Fork()
+		c := &c05Case{Abstract: true, Names: rng.Bool(), Stream: "device-compare"}
+		c.DevRoutes, c.TgtRoutes, c.Noise = genRoutes(rng, routeGenOpts{multiHop: rng.Chance(25), dupTarget: rng.Chance(8), max: 6}, res)
+		c.TgtRS = genRS(rng, ruleOpts{})
+		c.DevRS = mutateRS(rng, c.TgtRS, res, false)
+		if rng.Chance(8) {
+			c.OddLine = Pick(rng, soupIpt) // an odd line in the device's output
+		}
+		runDeviceCompare(c)
+	}
+	// C10 for routes: approve is interrupted after k accepted `ip route` commands, then runs again
+	for i := 0; i < ctx.N(15, 400); i++ {
+		rng := base.Fork()
+		c := &c05Case{Abstract: true, Stream: "device-resume"}
+		c.DevRoutes, c.TgtRoutes, _ = genRoutes(rng, routeGenOpts{multiHop: rng.Chance(30), dupTarget: rng.Chance(8), max: 7}, res)
+		c.FailAt = rng.Intn(9)
+		runDeviceResume(c)
+	}
+	res.Notes = append(res.Notes, fmt.Sprintf("device streams took %.1fs", time.Since(tDev).Seconds()))
 	// normalizeIPTables and parseIPTables through the exports
-	for i := 0; i < ctx.N(1500, 30000); i++ {
+	for i := 0; i < ctx.N(600, 30000); i++ {
 		rng := base.Fork()
 		m := genPairs(rng)
 		got := encPairs(linux.VerifNormalizeIPTables(m))
@@ -1136,9 +1453,13 @@ func runC05(ctx *Ctx) *Result {
 			res.Disagree("c05 normalizeIPTables vs model", m, got, want)
 		}
 	}
-	for i := 0; i < ctx.N(600, 10000); i++ {
+	for i := 0; i < ctx.N(300, 10000); i++ {
 		rng := base.Fork()
 		lines := []string{"*filter", ":INPUT DROP", ":c1 -"}
+		if rng.Chance(30) {
+			// comment lines as iptables-save prints them (ignored since the repair of F-C05c)
+			lines = []string{"# Generated by iptables-save v1.8.7 on Tue Sep 30 00:00:00 2026", "*filter", ":INPUT DROP [0:0]", " # Completed", ":c1 - [0:0]"}
+		}
 		k := 1 + rng.Intn(3)
 		for j := 0; j < k; j++ {
 			w := []string{"-A", Pick(rng, []string{"INPUT", "c1"})}
